@@ -520,9 +520,8 @@ def wrap(
     Also ensures that the `initial_indent` and `subsequent_indent` are not taken into
     account for the wrapping position.
     """
-    # Only ever break lines at whitespace: words are never split, neither at hyphens nor
-    # when they are longer than `width`
-    kwargs.setdefault("break_long_words", False)
+    # Only break lines at whitespace, not at hyphens. A word that is longer than `width`
+    # still has to be split
     kwargs.setdefault("break_on_hyphens", False)
     [first, *rest] = [
         line
